@@ -602,8 +602,10 @@ class Sim:
     """One simulated run of ``programs`` (list of lists of callables ``op(sim, tid)``)."""
 
     def __init__(self, programs, policy, faults=None, prefix='', op_kinds=None, max_steps=3_000_000,
-                 wall_timeout=60.0, on_switch=None, opcodes=False):
+                 wall_timeout=60.0, on_switch=None, opcodes=False, record_sites=None):
         self.opcodes = opcodes
+        self.record_sites = record_sites    # thread index whose (function, line) visits are counted, or None
+        self.site_visits = {}
         self.threads = [SimThread(i, p) for i, p in enumerate(programs)]
         self.policy = policy
         self.faults = dict(faults or {})
@@ -750,6 +752,9 @@ class Sim:
                 self.events.append(('fault', t.idx, t.op_index, t.op_step, exc, loc[0], loc[1]))
                 t.after_return = False
                 raise FAULT_EXC[exc]('injected by simulator')
+        if self.record_sites == t.idx and kind in ('call', 'line') and t.in_op and t.frame is not None:
+            k = (t.frame.f_code.co_name, t.frame.f_lineno)
+            self.site_visits[k] = self.site_visits.get(k, 0) + 1
         tgt = self.policy.decide(self, t, kind)
         if tgt is not None and tgt != t.idx:
             self._handoff(t, tgt, 'preempt')
